@@ -82,7 +82,23 @@ def r1_worklists(ctx):
     if f:
         scope = [f] + P.closures_of(f)
         # the work list's entries carry the first hop: the pinned `QueueElement { idx, distance, next: Option<Edge> }` or a tuple with the same content
-        ext, ins = _worklist_ops(f, scope, ('QueueElement', 'topology::Edge<'))
+        # (role: the entry type = a private record of dijkstra that carries an Edge, whatever it is called)
+        frags = ['QueueElement', 'topology::Edge<']
+        for k_, a_ in P.adts.items():
+            if k_.startswith(T + '::dijkstra') and any('topology::Edge<' in fd['ty'] for v in a_.get('variants', []) for fd in v['fields']):
+                frags.append(k_.rsplit('::', 1)[-1])
+        ext, ins = _worklist_ops(f, scope, tuple(frags))
+        if not ext:
+            # wave form: the work list is consumed in order by `for cur in wave` and refilled at the back of a second vector that
+            # replaces it for the next round - first in, first out by construction
+            for s in f.calls():
+                if (s.callee or s.name).endswith('IntoIterator::into_iter') and s.argtys and s.argtys[0].startswith('std::vec::Vec<') and any(t_ in s.argtys[0] for t_ in frags) \
+                        and len(f.loops_containing(s.b)) >= 1:
+                    nx = [c for c in f.calls() if (c.callee or '') == 'std::iter::Iterator::next' and c.args and
+                          any(x[0] == 'call' and x[1].endswith('into_iter') and x[3] == s.b for x in walk(f.expr_operand(c.args[0], c.b, 'T'))) and
+                          not any(x[0] == 'call' and x[1].split('::')[-1] in ('rev', 'skip', 'step_by', 'filter', 'take', 'skip_while', 'take_while', 'chain', 'zip') for x in walk(f.expr_operand(c.args[0], c.b, 'T')))]
+                    if nx and innermost_loop(f, nx[0].b) is not None and loop_exits_only_on_exhaustion(f, innermost_loop(f, nx[0].b)):
+                        ext.append((s, 'fifo'))
         if ctx.floor('queue extraction in dijkstra', len(ext), 1):
             kinds = {k for _, k in ext}
             ends = {k for _, k in ins}
